@@ -432,7 +432,8 @@ def gen_mode_cut(cwd):
            + open(os.path.join(VERIF, "modes", "cut", "src", "vec_shim.rs")).read()
            + "".join(consts) + tsb + split_def + rg_def +
            "/// WRAPPER (mine): pass 1's results are parameters; the body is the real pass-2 block, verbatim\n"
-           "pub fn pass2<'a>(table: &Tok, inventory: Vec<RowGroup<'a>>, total_bytes: u64, nodes: usize) -> (u64, Vec<Split>, Vec<RowGroup<'a>>) {\n"
+           "pub fn pass2<'a>(table: &Tok, inventory: VecShim<RowGroup<'a>>, total_bytes: u64, nodes: usize) -> (u64, VecShim<Split>, VecShim<RowGroup<'a>>) {\n"
+           "    type Vec<T> = VecShim<T>;\n"
            + fragment +
            "    (target, splits, inventory)\n}\n"
            + harness + "}\n}\n")
@@ -780,6 +781,9 @@ def insert_tests(h, tests):
         raise Inconclusive(f"{h.file}: no `// @playback` marker inside the harness module")
     s = s[:i] + code + "\n" + s[i:]
     open(p, "w").write(s)
+    if h.mode == "S:cut":
+        # this scratch crate holds a COPY of the harness module (cut out of the overlay file): regenerate it
+        gen_mode_cut(Build(h.mode).cwd)
 
 
 def run_playback(test_name, release, workdir, mode="O"):
